@@ -73,6 +73,8 @@ pub enum St {
     Let(String, E, bool),
     /// assignment to an array element: name, subscript, value
     LetA(String, E, E),
+    /// SWAP of two numeric l-values (scalars or array elements with constant subscripts)
+    Swap(String, String),
     /// string assignment
     LetS(String, SE),
     Goto(usize),
@@ -162,6 +164,20 @@ impl<'a> G<'a> {
 
     fn var(&mut self) -> String {
         VARS[self.rng.usize(5)].to_string()
+    }
+
+    /// numeric target of READ / INPUT / SWAP: a scalar, or (with arrays) an element with a constant subscript
+    fn target(&mut self, computed: bool) -> String {
+        if self.o.arrays && self.rng.chance(1, 4) {
+            let name = *self.rng.pick(&ARRS);
+            if computed && self.rng.chance(1, 3) {
+                return format!("{}({})", name, self.var());
+            }
+            // (constant subscripts stay within the default bounds: what INPUT does with a target that does not
+            // exist is not the reference interpreter's business)
+            return format!("{}({})", name, self.rng.range(0, 10));
+        }
+        self.var()
     }
 
     fn svar(&mut self) -> String {
@@ -286,7 +302,7 @@ impl<'a> G<'a> {
     }
 
     fn print(&mut self) -> St {
-        let n = self.rng.range(1, 3);
+        let n = if self.rng.chance(1, 4) { self.rng.range(3, 5) } else { self.rng.range(1, 3) };
         let mut items = vec![];
         for _ in 0..n {
             if self.o.strings && self.rng.chance(1, 4) {
@@ -314,6 +330,10 @@ impl<'a> G<'a> {
             let name = self.rng.pick(&ARRS).to_string();
             let idx = self.index(&[]);
             return St::LetA(name, idx, e);
+        }
+        if self.o.arrays && self.rng.chance(1, 12) {
+            let (a, b) = (self.target(false), self.target(false));
+            return St::Swap(a, b);
         }
         St::Let(v, e, self.rng.chance(1, 5))
     }
@@ -368,12 +388,12 @@ impl<'a> G<'a> {
                 }
             }
             6 if self.o.data => {
-                let n = self.rng.range(1, 3) as usize;
-                v.push(St::Read((0..n).map(|_| if self.o.strings && self.rng.chance(1, 3) { self.svar() } else { self.var() }).collect()));
+                let n = self.rng.range(1, 5) as usize;
+                v.push(St::Read((0..n).map(|_| if self.o.strings && self.rng.chance(1, 3) { self.svar() } else { self.target(true) }).collect()));
             }
             7 | 8 if self.o.input => {
                 let kinds = self.input_str.clone();
-                let vars = kinds.iter().map(|is_s| if *is_s { self.svar() } else { self.var() }).collect();
+                let vars = kinds.iter().map(|is_s| if *is_s { self.svar() } else { self.target(false) }).collect();
                 let prompt = match self.rng.usize(3) {
                     0 => None,
                     1 => Some("N".to_string()),
@@ -394,6 +414,15 @@ impl<'a> G<'a> {
     fn sel(&mut self) -> E {
         if self.rng.chance(1, 12) {
             return E::N(self.rng.range(-1, 0));
+        }
+        if self.o.frac && self.rng.chance(1, 5) {
+            // fractional, large and barely negative selectors (floored; negative is an error)
+            return match self.rng.usize(4) {
+                0 => E::Q(*self.rng.pick(&[6i64, 10, 3, 2, 5, 9, -1, -2])),
+                1 => E::N(*self.rng.pick(&[255i64, 256, 300, 3, 4])),
+                2 => E::Bin(Box::new(E::V(self.var())), "/", Box::new(E::N(2))),
+                _ => E::Bin(Box::new(E::Bin(Box::new(E::V(self.var())), "MOD", Box::new(E::N(3)))), "+", Box::new(E::Q(2))),
+            };
         }
         E::Bin(Box::new(E::V(self.var())), "MOD", Box::new(E::N(self.rng.range(2, 5))))
     }
@@ -1025,6 +1054,10 @@ impl<'a> Render<'a> {
                 let is = self.expr(i, 0);
                 format!("{}({})={}", self.w(v), is, es)
             }
+            St::Swap(a, b) => {
+                let (x, y) = (self.w(a), self.w(b));
+                format!("{} {},{}", self.w("SWAP"), x, y)
+            }
             St::LetS(v, e) => {
                 let es = self.sexpr(e);
                 format!("{}={}", self.w(v), es)
@@ -1540,6 +1573,26 @@ impl<'a> M<'a> {
         Ok(v)
     }
 
+    /// Key of a numeric target in the variable map: `NAME`, or `NAME(k)` for an element whose subscript is a
+    /// constant or a scalar variable.
+    fn target_key(&self, v: &str, ln: u16) -> R<String> {
+        match v.find('(') {
+            None => Ok(v.to_string()),
+            Some(i) => {
+                let inner = &v[i + 1..v.len() - 1];
+                let k = match inner.parse::<i64>() {
+                    Ok(k) => k as f64,
+                    Err(_) => *self.vars.get(inner).unwrap_or(&0.0),
+                }
+                .floor();
+                if !(0.0..=10.0).contains(&k) {
+                    return Err(End::Error("SUBSCRIPT OUT OF RANGE", ln));
+                }
+                Ok(format!("{}({})", &v[..i], k as i64))
+            }
+        }
+    }
+
     fn seval(&self, e: &SE, ln: u16) -> R<String> {
         let none = BTreeMap::new();
         let take = |s: &str, from: usize, n: usize| -> String { s.chars().skip(from).take(n).collect() };
@@ -1703,6 +1756,13 @@ impl<'a> M<'a> {
                 }
                 self.vars.insert(format!("{}({})", name, k as i64), x);
             }
+            St::Swap(a, b) => {
+                self.kinds.insert("SWAP");
+                let (ka, kb) = (self.target_key(a, ln)?, self.target_key(b, ln)?);
+                let (x, y) = (*self.vars.get(&ka).unwrap_or(&0.0), *self.vars.get(&kb).unwrap_or(&0.0));
+                self.vars.insert(ka, y);
+                self.vars.insert(kb, x);
+            }
             St::LetS(v, e) => {
                 self.kinds.insert("LET$");
                 let t = self.seval(e, ln)?;
@@ -1854,9 +1914,16 @@ impl<'a> M<'a> {
                     }
                     let d = self.data[self.dpos].1.clone();
                     self.dpos += 1;
+                    if !v.ends_with('$') && matches!(d, Datum::S(_)) && self.target_key(v, ln).is_err() {
+                        // wrong kind of constant for an element that does not exist: which error comes first is open
+                        return Err(End::Unspec("two errors in one READ target"));
+                    }
                     match (v.ends_with('$'), d) {
                         (false, Datum::N(x)) => {
-                            self.vars.insert(v.clone(), x as f64);
+                            // the subscript of an element is worked out when its turn comes (earlier targets of
+                            // the same list have their new values by then)
+                            let key = self.target_key(v, ln)?;
+                            self.vars.insert(key, x as f64);
                         }
                         (true, Datum::S(t)) => {
                             self.kinds.insert("READ$");
@@ -1949,7 +2016,8 @@ impl<'a> M<'a> {
                     for (v, x) in vars.iter().zip(vals.into_iter()) {
                         match x {
                             Fv::N(n) => {
-                                self.vars.insert(v.clone(), n);
+                                let key = self.target_key(v, ln)?;
+                                self.vars.insert(key, n);
                             }
                             Fv::S(t) => {
                                 self.svars.insert(v.clone(), t);
